@@ -23,6 +23,12 @@
 //!              finding (never to decide): the block is a jump target of a block whose branch condition
 //!              contains an ==/!= comparison whose two sides evaluate (at that BlkEnd) to the same
 //!              unique abstract identifier for which the state holds NO memory object
+//!   negstride_succ  FEATURE TAG per block (same purpose): the block is a jump target of a block whose
+//!              branch condition mentions a variable that evaluates (at that BlkEnd) to a value whose
+//!              absolute part is an interval with stride >= 2 and a NEGATIVE start
+//!   widesub_succ  FEATURE TAG per block (same purpose): the block is a jump target of a block whose
+//!              branch condition contains a Subpiece (low byte 0) of an expression whose value at that
+//!              BlkEnd is purely absolute and does NOT fit into the subpiece's size
 //!
 //! Programs whose pointer-inference log contains "Fixpoint did not stabilize" are outside the
 //! property's precondition: skipped and counted.  The harness decides nothing.
@@ -87,6 +93,35 @@ fn eq_subexprs<'a>(e: &'a Expression, out: &mut Vec<(&'a Expression, &'a Express
     }
 }
 
+fn subpieces_of<'a>(e: &'a Expression, out: &mut Vec<(&'a Expression, ByteSize)>) {
+    match e {
+        Expression::Subpiece { low_byte, size, arg } => {
+            if *low_byte == ByteSize::new(0) {
+                out.push((arg, *size));
+            }
+            subpieces_of(arg, out);
+        }
+        Expression::BinOp { lhs, rhs, .. } => {
+            subpieces_of(lhs, out);
+            subpieces_of(rhs, out);
+        }
+        Expression::UnOp { arg, .. } | Expression::Cast { arg, .. } => subpieces_of(arg, out),
+        _ => (),
+    }
+}
+
+fn vars_of<'a>(e: &'a Expression, out: &mut Vec<&'a Variable>) {
+    match e {
+        Expression::Var(v) => out.push(v),
+        Expression::BinOp { lhs, rhs, .. } => {
+            vars_of(lhs, out);
+            vars_of(rhs, out);
+        }
+        Expression::UnOp { arg, .. } | Expression::Cast { arg, .. } | Expression::Subpiece { arg, .. } => vars_of(arg, out),
+        _ => (),
+    }
+}
+
 pub struct Recorded {
     pub case: Option<Value>,
     pub not_stabilized: bool,
@@ -124,6 +159,8 @@ pub fn analyze(program: &Term<Program>, inits: &Value, seed: u64, index: u64, me
         let mut abs = Vec::new();
         let mut endstate = Vec::new();
         let mut sameid_succ: BTreeMap<Tid, bool> = BTreeMap::new();
+        let mut negstride_succ: BTreeMap<Tid, bool> = BTreeMap::new();
+        let mut widesub_succ: BTreeMap<Tid, bool> = BTreeMap::new();
         let mut nontrivial_regs = 0u64;
         for b in &sub.term.blocks {
             let n = start_of[&b.tid];
@@ -163,12 +200,35 @@ pub fn analyze(program: &Term<Program>, inits: &Value, seed: u64, index: u64, me
                                 _ => false,
                             }
                         });
-                        if tagged {
-                            for j2 in &b.term.jmps {
-                                match &j2.term {
-                                    Jmp::CBranch { target, .. } | Jmp::Branch(target) => { sameid_succ.insert(target.clone(), true); }
-                                    _ => (),
+                        let mut vars = Vec::new();
+                        vars_of(condition, &mut vars);
+                        let negstride = vars.iter().any(|v| match state.eval(&Expression::Var((*v).clone())).get_absolute_value() {
+                            Some(iv) => {
+                                let raw = domenc::RawIv::of(iv);
+                                raw.stride >= 2 && raw.start.sign_bit().to_bool()
+                            }
+                            None => false,
+                        });
+                        let mut subs = Vec::new();
+                        subpieces_of(condition, &mut subs);
+                        let widesub = subs.iter().any(|(arg, size)| match state.eval(arg).get_if_absolute_value() {
+                            Some(iv) => !iv.fits_into_size(*size),
+                            None => false,
+                        });
+                        for j2 in &b.term.jmps {
+                            match &j2.term {
+                                Jmp::CBranch { target, .. } | Jmp::Branch(target) => {
+                                    if widesub {
+                                        widesub_succ.insert(target.clone(), true);
+                                    }
+                                    if tagged {
+                                        sameid_succ.insert(target.clone(), true);
+                                    }
+                                    if negstride {
+                                        negstride_succ.insert(target.clone(), true);
+                                    }
                                 }
+                                _ => (),
                             }
                         }
                     }
@@ -183,6 +243,8 @@ pub fn analyze(program: &Term<Program>, inits: &Value, seed: u64, index: u64, me
             "abs": abs, "endstate": endstate,
             "ids": ids.values().cloned().collect::<Vec<_>>(),
             "sameid_succ": sub.term.blocks.iter().map(|b| sameid_succ.contains_key(&b.tid)).collect::<Vec<_>>(),
+            "negstride_succ": sub.term.blocks.iter().map(|b| negstride_succ.contains_key(&b.tid)).collect::<Vec<_>>(),
+            "widesub_succ": sub.term.blocks.iter().map(|b| widesub_succ.contains_key(&b.tid)).collect::<Vec<_>>(),
             "inits": inits.clone(),
             "nontrivial_regs": nontrivial_regs,
             "raw": irgen::program_to_string(program),
@@ -204,17 +266,28 @@ fn inits_json(inits: &[Vec<(String, u64, u64)>]) -> Value {
     )
 }
 
+/// location of the last panic of the code under test (recorded by the hook installed in `gen`)
+static LAST_PANIC_LOC: std::sync::Mutex<String> = std::sync::Mutex::new(String::new());
+
 pub fn gen(out: &mut Out, _sub: &str) {
+    // a panic of the analysis is data (counted, with its source location); keep it silent
+    std::panic::set_hook(Box::new(|info| {
+        if let Ok(mut l) = LAST_PANIC_LOC.lock() {
+            *l = info.location().map(|l| format!("{}:{}", l.file(), l.line())).unwrap_or_default();
+        }
+    }));
     let programs = out.size(160, 3000);
     let n_inits = 12usize;
     let mem_cfg = memory_config();
     let mut rng = Rng::new(out.seed.wrapping_mul(0x0C13_0C13).wrapping_add(13));
     let knobs = pigen::PiKnobs::default();
-    let (mut skipped, mut panics, mut blocks_total, mut stateless_blocks) = (0u64, 0u64, 0u64, 0u64);
+    let (mut skipped, mut panics, mut blocks_total, mut stateless_blocks, mut dropped_blocks) = (0u64, 0u64, 0u64, 0u64, 0u64);
     let mut panic_samples: Vec<String> = Vec::new();
-    for i in 0..programs {
+    let directed = pigen::directed_programs();
+    for i in 0..programs + directed.len() as u64 {
         let mut r = rng.fork();
-        let program = pigen::gen_function(&mut r, &knobs);
+        // the hand-written programs come first, then the generated ones
+        let program = if (i as usize) < directed.len() { directed[i as usize].1.clone() } else { pigen::gen_function(&mut r, &knobs) };
         let project = irgen::project_of(program.clone());
         let regs: Vec<Variable> = project.register_set.iter().cloned().collect();
         let consts = pigen::constants_of(&program.term.subs[&pigen::sub_tid()]);
@@ -223,7 +296,8 @@ pub fn gen(out: &mut Out, _sub: &str) {
         if !rec.panic.is_empty() {
             panics += 1;
             if panic_samples.len() < 3 {
-                panic_samples.push(rec.panic.clone());
+                let loc = LAST_PANIC_LOC.lock().map(|l| l.clone()).unwrap_or_default();
+                panic_samples.push(format!("program {}: {} at {}", i, rec.panic, loc));
             }
             continue;
         }
@@ -234,18 +308,22 @@ pub fn gen(out: &mut Out, _sub: &str) {
         let case = rec.case.unwrap();
         blocks_total += case["blocks"].as_array().unwrap().len() as u64;
         stateless_blocks += case["abs"].as_array().unwrap().iter().filter(|a| !a["has"].as_bool().unwrap()).count() as u64;
+        dropped_blocks += case["abs"].as_array().unwrap().iter().zip(case["endstate"].as_array().unwrap().iter())
+            .filter(|(a, e)| a["has"].as_bool().unwrap() && !e.as_bool().unwrap()).count() as u64;
         // non-trivial: some register at some block start has a value without the Top flag besides the
         // stack pointer (i.e. the analysis claims something that can be wrong)
         let nontrivial = case["nontrivial_regs"].as_u64().unwrap() > case["blocks"].as_array().unwrap().len() as u64;
         out.emit(vec![case], nontrivial);
     }
     out.extra.insert("programs_generated".into(), json!(programs));
+    out.extra.insert("programs_directed".into(), json!(directed.iter().map(|d| d.0).collect::<Vec<_>>()));
     out.extra.insert("skipped_not_stabilized".into(), json!(skipped));
     out.extra.insert("pi_panics".into(), json!(panics));
     out.extra.insert("pi_panic_samples".into(), json!(panic_samples));
     out.extra.insert("inits_per_program".into(), json!(n_inits));
     out.extra.insert("blocks_total".into(), json!(blocks_total));
     out.extra.insert("blocks_without_state".into(), json!(stateless_blocks));
+    out.extra.insert("blocks_state_dropped".into(), json!(dropped_blocks));
 }
 
 /// Re-execute the real pipeline on the program recorded in the case (`raw`) with the recorded inits.
